@@ -178,6 +178,32 @@ def run(tier, seed):
         ntypes = max(gr.tname)
         samples = 0
         t_end = time.time() + (60 if quick else 1500)
+        # decision coverage: derivations are sampled until (decision point, choice, next token) triples saturate; every
+        # sentence that adds a triple is compared, with three single-token mutations of it
+        seen_cov = set()
+        kept = 0
+        rc = random.Random(seed + 2)
+        for i in range(20000 if quick else 400000):
+            kinds, cov = gr.derive_cov(rc, maxdepth=rc.choice([5, 7, 9, 11]))
+            if len(kinds) > 400 or cov <= seen_cov:
+                continue
+            seen_cov |= cov
+            kept += 1
+            variants = [("decision", kinds)] + [("decision-mut-%s" % o, k) for o, k in (mutate(rc, kinds, ntypes) for _ in range(3))]
+            for kind, ks in variants:
+                text = render(ks, tab, rc)
+                if text is None:
+                    continue
+                try:
+                    ok_p &= compare_parser(res, model, impl, gr, text, kind)
+                except fw.ModelError as e:
+                    res.oblige("model answers RECOG", "correspondence", False, str(e)[:200])
+                    break
+            if len(res.violations) > 5:
+                break
+        res.extra["decision_triples_covered"] = len(seen_cov)
+        res.extra["decision_covering_sentences"] = kept
+        t_end = time.time() + (60 if quick else 1500)
         for i in range(n_par):
             if time.time() > t_end:
                 break
@@ -227,7 +253,8 @@ def run(tier, seed):
     return finish(res, level="proof", trusted=fw.TRUSTED_COMMON + [
         "C++ target: covered at artefact level only (ATN words, names, .tokens, .interp); it cannot be executed here",
         "T1 presents the left-recursive rule `expression` in loop form (PRE* PRIM)(BIN PRE* PRIM)*"],
-        rule="lexer: rendered random derivations of the grammar (+layout noise) and random strings over a boundary alphabet; "
+        rule="parser decision coverage: derivations sampled until the (EBNF decision point, choice, following token) triples saturate, "
+             "each covering sentence and three single-token mutations compared; lexer: rendered random derivations of the grammar (+layout noise) and random strings over a boundary alphabet; "
              "parser: random derivations and their single-token deletions/insertions/substitutions/swaps/truncations "
              "(thorough: every `expression` sentence of <=5 tokens); non-trivial = >=2 tokens (lexer) / >=6 tokens (parser); distinct by text / kind sequence",
         assumptions=["the ANTLR runtime executes the shipped ATN faithfully on inputs not sampled",
